@@ -253,7 +253,7 @@ def c18_monitor(case, frames):
     if any_clipped(case):
         # more rows than the height.  The rest of this monitor is for frames that fit (DESIGN 7a); one thing is decided here as
         # well: a bar whose third terminal frame (shutdown = 2) is flushed in a cycle that has no room for its rows leaves the
-        # container without ever being drawn at the top — it is on the screen nowhere afterwards (finding D10)
+        # container without ever being drawn at the top — it is on the screen nowhere afterwards (D10, repaired in /repo: this is its regression check)
         for c in cycles(case):
             if not c["clipped"] or c["out"] is None:
                 continue
@@ -359,6 +359,20 @@ def c04_monitor(case, frames):
     ids = [i for i in scr.lines if i[0] == "t"]
     if len(set(ids)) != len(ids):
         return ("a text line is on screen twice: %s" % ids, "text-duplicated-on-screen")
+    # a bar that was popped out (pop mode, third terminal frame) stays with ALL its rows, each once: a later frame must not
+    # have climbed into them (the counts come from the flush events, the screen from replaying the bytes)
+    if case["cfg"][5] == "1" and case["cfg"][6] != "1":
+        refixed = any(k == "HM_REQ" and len(a) >= 2 and a[0].startswith("b") and a[1] == "3" for _, k, a in events(case))
+        if not refixed:
+            for c in cycles(case):
+                if c["out"] is None:
+                    continue
+                for (b, sh, n, rm, np) in c["flushed"]:
+                    if sh == 2 and not np:
+                        on = [i for i in scr.lines if i[0] in ("r", "x") and int(i[1]) == b]
+                        if len(on) != n:
+                            return ("bar %d was popped out with %d rows at event %d, %d of its rows are on the screen at the end: %s"
+                                    % (b, n, c["outseq"], len(on), [":".join(i) for i in on]), "popped-rows-not-persisted")
     return None
 
 
